@@ -1304,40 +1304,80 @@ func c08R6(c *Ctx) {
 	}
 	fs := newFailSet()
 	nChanges := 0
-	ok := walkAll(c, rule, fn, func(p *Path) {
-		inOrder := false
-		p.ForEach(func(i int, ins ssa.Instruction) bool {
-			if !changesState(ins) {
-				return true
-			}
-			if underACK(p.RootSite(i, ins).Block()) {
-				return true
-			}
-			nChanges++
-			// the in-order signal as known at this point of the path
-			inOrder = false
-			for key, val := range p.FactsAt(i) {
-				if key.op != token.ILLEGAL || !val {
-					continue
+	ok := true
+	done := map[*ssa.Function]bool{}
+	// walkFn judges the state changes on the paths of f. sig lists the boolean parameters of f that carry
+	// the in-order signal (for the entry function none; for a helper that was too large to inline, the
+	// parameters its caller binds to the result of recvWindow.receive).
+	var walkFn func(f *ssa.Function, sig map[int]bool, depth int)
+	walkFn = func(f *ssa.Function, sig map[int]bool, depth int) {
+		if done[f] || depth > 2 {
+			return
+		}
+		done[f] = true
+		c.Analysed(FuncName(f))
+		isSignal := func(p *Path, v ssa.Value) bool {
+			if ex, ok := v.(*ssa.Extract); ok && ex.Index == 0 {
+				if call, ok := ex.Tuple.(*ssa.Call); ok && calleeID(call) == recvID {
+					return true
 				}
-				v := p.Resolve(key.x, i)
-				if ex, ok := v.(*ssa.Extract); ok && ex.Index == 0 {
-					if call, ok := ex.Tuple.(*ssa.Call); ok && calleeID(call) == recvID {
+			}
+			if call, ok := v.(*ssa.Call); ok && !call.Call.IsInvoke() {
+				if fn2 := calleeFunc(&call.Call); fn2 != nil && fn2.Name() == "Load" && len(call.Call.Args) == 1 && lastField(call.Call.Args[0]) == fClosed {
+					return true
+				}
+			}
+			if k := paramIndex(f, v); k >= 0 && sig[k] {
+				return true
+			}
+			return false
+		}
+		if !walkAll(c, rule, f, func(p *Path) {
+			p.ForEach(func(i int, ins ssa.Instruction) bool {
+				if !changesState(ins) {
+					return true
+				}
+				call, isCall := ins.(*ssa.Call)
+				if isCall && p.InlinedCall(call) {
+					return true // judged instruction by instruction inside the helper
+				}
+				for _, site := range p.SiteChain(i, ins) {
+					if underACK(site.Block()) {
+						return true
+					}
+				}
+				nChanges++
+				// the in-order signal as known at this point of the path
+				inOrder := false
+				for key, val := range p.FactsAt(i) {
+					if key.op == token.ILLEGAL && val && isSignal(p, p.Resolve(key.x, i)) {
 						inOrder = true
 					}
 				}
-				if call, ok := v.(*ssa.Call); ok && !call.Call.IsInvoke() {
-					if f := calleeFunc(&call.Call); f != nil && f.Name() == "Load" && len(call.Call.Args) == 1 && lastField(call.Call.Args[0]) == fClosed {
-						inOrder = true
+				if inOrder {
+					return true
+				}
+				// a helper that decides for itself: judge its body, with the signal it is handed
+				if isCall {
+					if g := staticCallee(&call.Call); g != nil && g != f && len(g.Blocks) > 0 && !p.Inlined(ins) {
+						gs := map[int]bool{}
+						for k, a := range call.Call.Args {
+							if isSignal(p, p.Resolve(a, i)) {
+								gs[k] = true
+							}
+						}
+						walkFn(g, gs, depth+1)
+						return true
 					}
 				}
-			}
-			if !inOrder {
 				fs.add("fin-in-order", "Reliable.receive changes the tube state outside the acknowledgement branch on a path where neither recvWindow.receive reported the FIN as processed nor recvWindow.closed was found set: a FIN that overtakes missing data closes the tube and the stream is cut short", ins, p)
-			}
-			return true
-		})
-	})
+				return true
+			})
+		}) {
+			ok = false
+		}
+	}
+	walkFn(fn, map[int]bool{}, 0)
 	if ok {
 		fs.report(c, rule, name, []string{"fin-in-order"}, P.Pos(fn.Pos()), fmt.Sprintf("holds for all %d FIN-driven state changes on the paths", nChanges))
 		c.Floor(rule, "FIN-driven state changes on paths of Reliable.receive", nChanges, 3)
